@@ -16,7 +16,7 @@ MANIFEST = dict(
     text=("Coq (Props/C12.v): [universal] the result of Parser.parse on a reused object depends on the text only (the comment buffer is cleared at parse entry) and equals the stateless function all other theorems are about; "
           "[universal] for threads whose steps touch only their own state every interleaving gives each thread the result of its isolated run (induction over the schedule); "
           "[regenerated every run] an AST scan of mappyfile/*.py shows no function body rebinds or mutates a module-level name (a module-level parser/schema cache makes this obligation fail); "
-          "[finite] printing leaves its argument unchanged on the slot product. The Validator's per-(name, version) caches are covered by C09's cache-coherence theorem. "
+          "[universal, Proofs/PrintU_Pure.v] with separate_complex_types off the dictionary after any successful print is the argument itself, with it on the argument is only reordered (stable partition of block-named keys in every dict descended into: a permutation at every level, values unchanged) - and refuted: it is reordered; [finite] the same on the slot product. The Validator's per-(name, version) caches are covered by C09's cache-coherence theorem. "
           "PARTIAL: real GIL schedules and third-party process-wide state (lark, jsonref, re caches) cannot be exhibited by the model: the hunter reuses the four worker objects over random document histories against fresh objects, "
           "deep-compares every argument before and after every public call, and runs 8-16 real threads under sys.setswitchinterval(1e-6) against sequential results."),
     design_ref="DESIGN.md 7/C12",
